@@ -4,7 +4,8 @@ CONSTANTS
   MaxLeaves2 = 3
   Mod = 24
   Typings = {"O", "I", "M"}
-  Tops = {"ret1", "ret2", "assign", "aug", "unpack"}
+  Tops = {"ret1", "ret2", "assign", "aug", "unpack", "member"}
+  ModMem = 360
   Dump = TRUE
 INVARIANT CanonInv
 INVARIANT AtMostOnce
@@ -13,5 +14,6 @@ INVARIANT AllEvaluated
 INVARIANT LeftToRight
 INVARIANT RhsFirst
 INVARIANT AugOrder
+INVARIANT MemberFirst
 INVARIANT Publish
 CHECK_DEADLOCK FALSE
